@@ -56,7 +56,7 @@ prop("C02",
 
 prop("C03",
      [pairflowrule.run, tables.run_dispatch, tables.run_precedence, partial(panic.run, name="R-PANIC"), guard.run_mustcall, queryguard.run, round11.run_queryimpl, fold.run, errflow.run, parsepure.run, variant.run, round3.run_childkeep, round10.run_retkind, round11.run_seedfold],
-     "R-QUERYIMPL: on every path on which an operator's admissibility predicate answers true, each Type query its result type unwraps was seen to be Some (operands not swapped). R-RETKIND (an operator typed with a constant type whose kernel can build another kind: the folded value fails a downcast while parsing). R-CHILDKEEP (a statement or declaration filtered out of a module / block while it is created is still referred to by what stays: the folding pass then looks up a name that was never declared). Decides: every alternative the grammar can hand to a pair-walking function has an arm there (R-TABLES-D: primary, line/stm/"
+     "R-SEEDFOLD: Type::min_tuple_len (the bound behind `t.N`) keeps the smaller length. R-QUERYIMPL: on every path on which an operator's admissibility predicate answers true, each Type query its result type unwraps was seen to be Some (operands not swapped). R-RETKIND (an operator typed with a constant type whose kernel can build another kind: the folded value fails a downcast while parsing). R-CHILDKEEP (a statement or declaration filtered out of a module / block while it is created is still referred to by what stays: the folding pass then looks up a name that was never declared). Decides: every alternative the grammar can hand to a pair-walking function has an arm there (R-TABLES-D: primary, line/stm/"
      "body, type, match_arm, int, var_from_str) and every operator rule is registered in the Pratt parser (R-TABLES); every "
      "panic-capable site on the parse path is a reviewed row (R-PANIC); Type queries are guarded by their admissibility test "
      "(R-MUSTCALL) and treat union members alike (R-FOLD); folding failures are propagated as errors, never unwrapped (R-ERRFLOW); "
@@ -79,7 +79,7 @@ prop("C04",
 
 prop("C05",
      [hashorder.run_hash, hashorder.run_order, hashorder.run_nondet, fold.run, lock.run_global, round4.run_instrstate, round4.run_concat, round6.run_noabsorb, round10.run_renderkey, round11.run_seedfold],
-     "R-RENDERKEY: the text of a value is never used as a key or compared. R-NOABSORB. R-CONCAT (absorption by subtyping makes the member set depend on arrival order). Also R-GLOBAL / R-INSTRSTATE: nothing is left behind by an earlier parse or run. Decides: no Hash impl of a crate type observes hash iteration order (R-HASH); every iteration over a HashMap / HashSet / "
+     "R-SEEDFOLD: the combiner of a fold seeded with the first member in hash order captures nothing from that member. R-RENDERKEY: the text of a value is never used as a key or compared. R-NOABSORB. R-CONCAT (absorption by subtyping makes the member set depend on arrival order). Also R-GLOBAL / R-INSTRSTATE: nothing is left behind by an earlier parse or run. Decides: no Hash impl of a crate type observes hash iteration order (R-HASH); every iteration over a HashMap / HashSet / "
      "MultiType ends in an order-insensitive consumer, a commutative fold, a display-only context or a reviewed row "
      "(R-HASHORDER, def-use from each iteration start to its terminal consumers); no clock / env / thread / RandomState call "
      "outside stdlib::{fs,io} (R-NONDET); union folds query all members alike (R-FOLD).",
